@@ -135,6 +135,15 @@ let rec pr_val (v : val0) : string =
 
 let pr_entity (n : node) : string = Printf.sprintf "%s:%d:%s" (hexb n.n_file) (int_of_n n.n_line) (hexb n.n_snippet)
 
+(* ANTLR token type numbers of Query.g4 *)
+let tok_num (t : token) : int =
+  match t with
+  | TLParen -> 1 | TRParen -> 2 | TLBrace -> 3 | TRBrace -> 4 | TComma -> 5 | TOrOr -> 6 | TAndAnd -> 7
+  | TEqEq -> 8 | TNeq -> 9 | TLt -> 10 | TGt -> 11 | TLe -> 12 | TGe -> 13 | TIn -> 14 | TPlus -> 15
+  | TMinus -> 16 | TStar -> 17 | TSlash -> 18 | TBang -> 19 | TDot -> 20 | TLBrack -> 21 | TRBrack -> 22
+  | TLike -> 23 | TInWord -> 24 | TString _ -> 25 | TNumber _ -> 27 | TPredicate -> 28 | TFrom -> 29
+  | TWhere -> 30 | TAs -> 31 | TSelect -> 32 | TIdent _ -> 33
+
 (* query <graph-file> : queries on stdin as "<id> <hex query>" *)
 let cmd_query (graph_file : string) =
   let ic = open_in graph_file in
@@ -154,6 +163,9 @@ let cmd_query (graph_file : string) =
        | [id; qh] ->
          let s = bytes_of_hex qh in
          Printf.printf "QUERY %s\n" id;
+         (match lex_query s with
+          | None -> print_string "LEX !\n"
+          | Some ts -> Printf.printf "LEX %s\n" (String.concat "." (List.map (fun t -> string_of_int (tok_num t)) ts)));
          (match parse_query s with
           | None -> print_string "PARSE reject\n"
           | Some aq ->
@@ -180,8 +192,27 @@ let cmd_query (graph_file : string) =
        | _ -> failwith ("query: bad line " ^ l))
   in loop ()
 
+(* collect: local graphs in arrival order on stdin ("LOCAL" then "L <line>" ...), merged graph on stdout *)
+let cmd_collect () =
+  let locals = ref [] and cur_n = ref [] and cur_e = ref [] and started = ref false in
+  let flush () = if !started then locals := (List.rev !cur_n, List.rev !cur_e) :: !locals; cur_n := []; cur_e := [] in
+  (try while true do
+       let l = input_line stdin in
+       if l = "LOCAL" then (flush (); started := true)
+       else if String.length l > 7 && String.sub l 0 7 = "L NODE " then begin
+         let body = String.sub l 2 (String.length l - 2) in
+         let kv = kv_of_line body in
+         cur_n := (bytes_of_string (List.assoc "id" kv), body) :: !cur_n end
+       else if String.length l > 7 && String.sub l 0 7 = "L EDGE " then cur_e := String.sub l 2 (String.length l - 2) :: !cur_e
+     done with End_of_file -> ());
+  flush ();
+  let (ns, es) = collect (List.rev !locals) in
+  List.iter (fun (_, body) -> print_string body; print_char '\n') ns;
+  List.iter (fun e -> print_string e; print_char '\n') es
+
 let () =
   match Array.to_list Sys.argv with
   | [_; "build"] -> cmd_build ()
+  | [_; "collect"] -> cmd_collect ()
   | [_; "query"; g] -> cmd_query g
   | _ -> prerr_endline "usage: model build < cases | model query <graph> < queries"; exit 2
